@@ -122,9 +122,90 @@ mod gmax0 {
     }
 }
 
+/// A group with a display name: its options must still reach the benchmarks below.
+#[divan::bench_group(name = "renamed", sample_count = 3, sample_size = 2)]
+mod orig_group {
+    use super::{call, run};
+    use divan::Bencher;
+
+    /// count and size from the renamed group
+    #[divan::bench(threads = [1, 2])]
+    fn rg_3_2_t12(b: Bencher) {
+        run("rg_3_2_t12");
+        b.bench(|| call("rg_3_2_t12"));
+    }
+
+    /// a nested group: inherits count and size, sets the threads
+    #[divan::bench_group(threads = [2, 3])]
+    pub mod inner {
+        use super::{call, run};
+        use divan::Bencher;
+
+        #[divan::bench]
+        fn rgi_3_2_t23(b: Bencher) {
+            run("rgi_3_2_t23");
+            b.bench(|| call("rgi_3_2_t23"));
+        }
+    }
+}
+
+/// A group on a raw-identifier module.
+#[divan::bench_group(threads = 3, sample_count = 4, sample_size = 1)]
+mod r#type {
+    use super::{call, run};
+    use divan::Bencher;
+
+    #[divan::bench]
+    fn raw_4_1_t3(b: Bencher) {
+        run("raw_4_1_t3");
+        b.bench(|| call("raw_4_1_t3"));
+    }
+}
+
+/// A renamed group with sample_count = 0: nothing below it is called.
+#[divan::bench_group(name = "zero", sample_count = 0, sample_size = 2)]
+mod zero_group {
+    use super::{call, run};
+    use divan::Bencher;
+
+    #[divan::bench(threads = [1, 2])]
+    fn z_0_2_t12(b: Bencher) {
+        run("z_0_2_t12");
+        b.bench(|| call("z_0_2_t12"));
+    }
+}
+
+/// Display paths of all benchmarks of this binary (for `HX_ONLY`).
+const ALL: &[&str] = &[
+    "hx_loop_e2e::plain",
+    "hx_loop_e2e::plain_inputs",
+    "hx_loop_e2e::a_5_3_t123",
+    "hx_loop_e2e::a_7_2_t24",
+    "hx_loop_e2e::a_1_4_t13",
+    "hx_loop_e2e::grp::g_4_2_t12",
+    "hx_loop_e2e::grp::g_3_2_t234",
+    "hx_loop_e2e::a_5_3_t12_min0",
+    "hx_loop_e2e::a_5_3_t12_max0",
+    "hx_loop_e2e::gmin0::g_4_2_t13_min0",
+    "hx_loop_e2e::gmax0::g_3_2_t12_max0",
+    "hx_loop_e2e::gmax0::g_3_2_t12_max100",
+    "hx_loop_e2e::renamed::rg_3_2_t12",
+    "hx_loop_e2e::renamed::inner::rgi_3_2_t23",
+    "hx_loop_e2e::type::raw_4_1_t3",
+    "hx_loop_e2e::zero::z_0_2_t12",
+];
+
 /// `HX_BUILDER`: `;`-separated builder calls (`sample_count=7`, `sample_size=3`,
 /// `threads=1,2`, `min_time=SECS`, `max_time=SECS`) applied to `Divan::default()`
 /// BEFORE `config_with_args()`, as a `main` that pre-configures the runner does.
+///
+/// `HX_START` selects how the run is started:
+/// `main` (default): `config_with_args().main()` — the action comes from the arguments;
+/// `api-test` / `api-bench`: no argument parsing, `test_benches()` / `run_benches()` on the
+///   pre-configured default runner (`HX_ONLY=<path>`: every other benchmark is skipped);
+/// `args-test-then-api-bench` / `args-bench-then-api-test`: the runner is configured from the
+///   arguments for one action and then asked for the other through the API.
+/// The REQUESTED action decides what must happen.
 fn main() {
     let spec = std::env::var("HX_BUILDER").unwrap_or_default();
     let mut d = divan::Divan::default();
@@ -139,5 +220,24 @@ fn main() {
             other => panic!("unknown builder call {other}"),
         };
     }
-    d.config_with_args().main();
+    let start = std::env::var("HX_START").unwrap_or_else(|_| "main".to_string());
+    match start.as_str() {
+        "main" => d.config_with_args().main(),
+        "api-test" | "api-bench" => {
+            if let Ok(only) = std::env::var("HX_ONLY") {
+                assert!(ALL.contains(&only.as_str()), "unknown benchmark {only}");
+                for p in ALL.iter().filter(|p| **p != only) {
+                    d = d.skip_exact(*p);
+                }
+            }
+            if start == "api-test" {
+                d.test_benches()
+            } else {
+                d.run_benches()
+            }
+        }
+        "args-test-then-api-bench" => d.config_with_args().run_benches(),
+        "args-bench-then-api-test" => d.config_with_args().test_benches(),
+        other => panic!("unknown HX_START {other}"),
+    }
 }
